@@ -910,7 +910,9 @@ class XsdElement(XsdComponent, ParticleMixin,
                 fields = tuple(
                     s.get_value(element_node, context.namespaces) for s in selectors
                 )
-            except (XMLSchemaValueError, XMLSchemaTypeError) as err:
+            except (ValueError, TypeError) as err:
+                # Includes XMLSchemaValueError/XMLSchemaTypeError and the errors of the
+                # XPath processor, e.g. for a malformed xsi:type on a selected element.
                 context.validation_error(validation, self, err, obj)
             else:
                 if any(x is not None for x in fields) or nilled:
